@@ -163,8 +163,12 @@ func (r *Run) Violation(key, what string, c interface{}) {
 	}
 	r.mu.Lock()
 	r.violCount++
+	// keep the first two cases of a key and the most recent one: a finding that depends on
+	// process-global state may only reproduce from some of them
 	if len(r.viol[key]) < 3 {
 		r.viol[key] = append(r.viol[key], Violation{Key: key, What: what, Case: raw})
+	} else {
+		r.viol[key][2] = Violation{Key: key, What: what, Case: raw}
 	}
 	r.mu.Unlock()
 }
@@ -294,24 +298,33 @@ func (r *Run) Finish() int {
 	for _, key := range keys {
 		vs := r.viol[key]
 		v := vs[0]
-		// replay twice: both runs must reproduce this key
+		// replay twice on fresh instances: both runs must reproduce this key. Each stored case of
+		// the key is tried in turn.
 		if r.replay != nil {
-			ok := true
+			reproduced := false
 			var detail string
-			for i := 0; i < 2; i++ {
-				ks, d := r.replay(v.Case)
-				detail = d
-				found := false
-				for _, k := range ks {
-					if k == key {
-						found = true
+			for _, cand := range vs {
+				ok := true
+				for i := 0; i < 2; i++ {
+					ks, d := r.replay(cand.Case)
+					detail = d
+					found := false
+					for _, k := range ks {
+						if k == key {
+							found = true
+						}
+					}
+					if !found {
+						ok = false
 					}
 				}
-				if !found {
-					ok = false
+				if ok {
+					v = cand
+					reproduced = true
+					break
 				}
 			}
-			if !ok {
+			if !reproduced {
 				lines = append(lines, fmt.Sprintf("HARNESS-ERROR property=%s key=%s did not reproduce on replay (%s)", r.Prop, key, detail))
 				if exit == 0 {
 					exit = 2
